@@ -27,6 +27,11 @@ class MappingMutator(CollectionAttrMutator):
         return value_or_index, self.collection.get(value_or_index, MISSING)
 
     def _inserter(self, index, item):
+        type_args = getattr(self.attr_spec.type, "__args__", None) or ()
+        if len(type_args) == 2 and not check_type(index, type_args[0]):
+            raise ValueError(
+                f"Attempted to add an invalid key `{repr(index)}` to `{self.attr_spec.qualified_name}`. Expected key of type `{type_label(type_args[0])}`."
+            )
         if not check_type(item, self.attr_spec.item_type):
             raise ValueError(
                 f"Attempted to add an invalid item `{repr(item)}` to `{self.attr_spec.qualified_name}`. Expected item of type `{type_label(self.attr_spec.item_type)}`."
